@@ -110,6 +110,10 @@ def flow(name):
         # simple shear x-z typed with integer literals: the callable returns int64 arrays
         Li = np.array([[0, 0, 2], [0, 0, 0], [0, 0, 0]])
         return Flow("i64_ss", lambda t, x, Li=Li: Li.copy(), lambda t: np.zeros(3, dtype=np.int64), const=Li.astype(float))
+    if name == "i64_ss1":
+        # simple shear typed with integer literals whose strain rate has half-integer entries
+        Li = np.array([[0, 0, 1], [0, 0, 0], [0, 0, 0]])
+        return Flow("i64_ss1", lambda t, x, Li=Li: Li.copy(), lambda t: np.zeros(3), const=Li.astype(float))
     if name == "st_gen":
         # environment answer "the callable hands out the SAME array object on every call"
         # (un-normalised generic gradient); built afresh for every request so that a tree that
@@ -194,6 +198,10 @@ F0S = {
 
 
 def f0(name):
+    if name == "generic_fortran":  # the non-symmetric "generic" gradient in Fortran memory order
+        return np.asfortranarray(F0S["generic"].copy())
+    if name == "generic_tview":  # ... handed over as a transposed view
+        return np.ascontiguousarray(F0S["generic"].T).T
     if name == "rotstretch":
         return alph.GEN["g0"] @ np.diag([1.3, 0.8, 1.05])
     return F0S[name].copy()
@@ -408,6 +416,13 @@ class Monitor:
                     # D's own largest |eigenvalue| (NOT trusting the caller to have done so,
                     # otherwise a dimensional D would gate every grain and blind the twins)
                     Dn = np.asarray(D, float)
+                    # ... and, where the velocity gradient is handed over as well, take the
+                    # strain rate from IT (a strain rate truncated to zero by an integer
+                    # buffer would gate every grain: seed C05h)
+                    Lg = k.get("velocity_gradient", a[7] if len(a) > 7 else None)
+                    if Lg is not None and np.isfinite(np.asarray(Lg, float)).all() and np.abs(np.asarray(Lg, float)).max() > 0:
+                        Lg = np.asarray(Lg, float)
+                        Dn = (Lg + Lg.T) / 2
                     sm = np.abs(np.linalg.eigvalsh((Dn + Dn.T) / 2)).max()
                     act = drex_ref.activity(int(ph), int(fb), np.asarray(A, float), Dn / sm if sm > 0 else Dn)
                     mon.act_min = act if mon.act_min is None else np.minimum(mon.act_min, act)
